@@ -51,9 +51,8 @@ func verifKey(klen int) []byte {
 // arbitrary R with S=1, arbitrary AES key (AES uninterpreted), one gate
 // with arbitrary op and wiring over 4 wires, arbitrary input bits.
 // klen is 16, 24 or 32.
-func verifC01StepK(klen int) {
-	const nw = 4
-	wires, r := verifWires(nw)
+func verifC01StepK(klen int, nw uint32) {
+	wires, r := verifWires(int(nw))
 	key := verifKey(klen)
 
 	var g Gate
@@ -69,9 +68,9 @@ func verifC01StepK(klen int) {
 	g.Output = Wire(zzverif.Concrete(uint64(out)))
 
 	// evaluator's labels for arbitrary input bits
-	var v [nw]bool
+	v := make([]bool, nw)
 	evalWires := make([]ot.Label, nw)
-	for i := 0; i < nw; i++ {
+	for i := 0; i < int(nw); i++ {
 		v[i] = zzverif.Bool("v." + string(rune('0'+i)))
 		l := wires[i].L0
 		if v[i] {
@@ -108,7 +107,7 @@ func verifC01StepK(klen int) {
 	zzverif.Assert(ow.L1.Equal(inv), "output wire keeps L1 = L0 xor R")
 
 	// evaluator on the produced table
-	c := &Circuit{NumGates: 1, NumWires: nw, Gates: []Gate{g}}
+	c := &Circuit{NumGates: 1, NumWires: int(nw), Gates: []Gate{g}}
 	garbled := make([][]ot.Label, 1)
 	if count > 0 {
 		garbled[0] = table[start : start+count]
@@ -127,6 +126,11 @@ func verifC01StepK(klen int) {
 	zzverif.Reach("end")
 }
 
-func verifC01Step16() { verifC01StepK(16) }
-func verifC01Step24() { verifC01StepK(24) }
-func verifC01Step32() { verifC01StepK(32) }
+func verifC01Step16() { verifC01StepK(16, 4) }
+func verifC01Step24() { verifC01StepK(24, 4) }
+func verifC01Step32() { verifC01StepK(32, 4) }
+
+// quick variants: 3 wires (27 wirings) / 2 wires
+func verifC01Step16w3() { verifC01StepK(16, 3) }
+func verifC01Step24w2() { verifC01StepK(24, 2) }
+func verifC01Step32w2() { verifC01StepK(32, 2) }
